@@ -166,7 +166,7 @@ pub fn build(c: &Case, root_abs: &[u8]) -> Built {
                 SrcKind::Tree(g) => SrcKind::Tree(
                     g.into_iter()
                         .map(|mut x| {
-                            if !matches!(x.kind, GK::Dir | GK::File(..) | GK::Fifo | GK::Sock) {
+                            if !matches!(x.kind, GK::Dir | GK::File(..) | GK::Fifo | GK::Sock | GK::Sparse(..)) {
                                 x.kind = GK::File(33, 2);
                             }
                             x
